@@ -72,7 +72,15 @@ func Main(args []string) int {
 		workers := fs.Int("workers", runtime.NumCPU(), "workers")
 		params := paramFlags{}
 		fs.Var(params, "p", "param k=v")
+		listS := fs.String("list", "", "comma-separated scenario numbers")
 		fs.Parse(args[1:])
+		var list []int
+		for _, x := range strings.Split(*listS, ",") {
+			var n int
+			if _, err := fmt.Sscan(x, &n); err == nil {
+				list = append(list, n)
+			}
+		}
 		l, err := Load(repoDir(), filepath.Join(verifDir(), "harness"), []string{*pkg})
 		if err != nil {
 			fmt.Println(err)
@@ -83,7 +91,7 @@ func Main(args []string) int {
 			fmt.Println("no such harness")
 			return 2
 		}
-		res := RunSched(l, f, params, *workers, 60000, *verbose)
+		res := RunSchedList(l, f, params, list, *workers, 60000, *verbose)
 		printResult(res)
 		var nt *NativeTest
 		for i := range res.Violations {
